@@ -211,7 +211,11 @@ impl Scenario for C10 {
                 ops.extend(gen_suffix(rng, kind, 12));
                 spec.ops = ops;
                 // (na, kindA, nb, kindB): advance one side / both sides by different call shapes
-                spec.aux = match rng.below(9) {
+                spec.aux = match rng.below(11) {
+                    // the same seed, positions a whole number of 64-block spans apart (1024 words for HC-128):
+                    // same buffer index, counters that only matter modulo something agree
+                    9 => vec![rng.range(1, 3) * 64 * kind.block_words().max(1) as u64, 1, 0, 1],
+                    10 => vec![rng.range(1, 4) * 512, 2, 0, 1],
                     6 => vec![1, 1, 1, 2],                              // one next_u32 vs one next_u64 (same index, half flag differs on 64-bit buffered)
                     7 => vec![3, 1, 2, 2],                              // three next_u32 vs two next_u64
                     8 => vec![1, 1, 1, 3],                              // one next_u32 vs fill(8)
@@ -441,15 +445,15 @@ impl C10 {
             spec.aux.get(2).copied().unwrap_or(0),
             spec.aux.get(3).copied().unwrap_or(1),
         );
-        sut(skew_calls(a.as_mut(), na.min(600), ka), "skew")?;
-        sut(skew_calls(b.as_mut(), nb.min(600), kb), "skew")?;
+        sut(skew_calls(a.as_mut(), na.min(70_000), ka), "skew")?;
+        sut(skew_calls(b.as_mut(), nb.min(70_000), kb), "skew")?;
         let verdict = eq_checked(a.as_ref(), b.as_ref(), st)?;
         st.sig(&[kind.id(), idx, half as u64, 1 + ka * 8 + kb, verdict.map(|v| v as u64).unwrap_or(2)]);
         match verdict {
             Some(true) => {
                 st.count("probe:eq_true_after_skew");
                 if kind == Kind::Hc128 {
-                    let (wa, wb2) = (words32(na.min(600), ka), words32(nb.min(600), kb));
+                    let (wa, wb2) = (words32(na.min(70_000), ka), words32(nb.min(70_000), kb));
                     let same_block = (idx + wa) / 16 == (idx + wb2) / 16 && idx != 0;
                     if wa != wb2 && same_block {
                         return Err(E::End(viol("C10/hc128_different_positions_equal", "Hc128Rng:skew", format!("two Hc128Rng at read positions {} and {} of the same block compare equal", (idx + wa) % 16, (idx + wb2) % 16))));
@@ -460,7 +464,7 @@ impl C10 {
             Some(false) => {
                 st.count("probe:eq_false_after_skew");
                 if kind == Kind::Hc128 {
-                    let (wa, wb2) = (words32(na.min(600), ka), words32(nb.min(600), kb));
+                    let (wa, wb2) = (words32(na.min(70_000), ka), words32(nb.min(70_000), kb));
                     if wa != wb2 && idx != 0 && (idx + wa) / 16 == (idx + wb2) / 16 {
                         st.count("probe:hc128_same_block_different_index");
                     }
